@@ -62,7 +62,8 @@ func (ctx *Ctx) genFunc(fn *ssa.Function, ct *Contract, houdini map[int][]*Claus
 	g.declare("W0", SInt)
 	g.emit("(assert (>= W0 1))")
 	g.declare("tok0", SInt)
-	st := &State{cond: boolLit(true), heap: map[string]Term{}, ep: g.newEpoch(), W: Term{S: "W0", Sort: SInt}, tok: Term{S: "tok0", Sort: SInt}}
+	g.declare("ftok0", SInt)
+	st := &State{cond: boolLit(true), heap: map[string]Term{}, ep: g.newEpoch(), W: Term{S: "W0", Sort: SInt}, tok: Term{S: "tok0", Sort: SInt}, ftok: Term{S: "ftok0", Sort: SInt}, esc: boolLit(false)}
 	g.entryW = st.W
 	f := g.newFrame(fn, nil)
 	f.isTop = true
@@ -94,6 +95,19 @@ func (ctx *Ctx) genFunc(fn *ssa.Function, ct *Contract, houdini map[int][]*Claus
 		g.assumeWF(st, v)
 		g.assume(boolLit(true), tCmp(">=", v.Comps[0], intLit(1)))
 		f.freeVals[fv] = v
+		// a captured variable that only ever holds constants (e.g. `n := 0; if c { n = 4 }`)
+		if cs, ok := cellConstValues(fn, len(vc.ParamInfo)-len(fn.Params)); ok {
+			elem := fv.Type().(*types.Pointer).Elem()
+			if _, isInt := isIntType(elem); isInt {
+				cur := g.loadVal(st, v.Comps[0], elem)
+				var alts []Term
+				for _, c := range cs {
+					cv := f.val(c, elem)
+					alts = append(alts, tEq(cur.Comps[0], cv.Comps[0]))
+				}
+				g.assume(boolLit(true), tOr(alts...))
+			}
+		}
 		pi := ParamInfo{Name: "^" + fv.Name(), Type: fv.Type().String()}
 		for _, c := range v.Comps {
 			pi.Comps = append(pi.Comps, c.S)
